@@ -107,7 +107,7 @@ class Atoms():
     def get_multi_atnames(self, atom_name, residue_class):
         atoms = []
         if residue_class:
-            for num in self.shx.residues.residue_classes[residue_class]:
+            for num in self.shx.residues.residue_classes[residue_class.upper()]:
                 if '_' not in atom_name:
                     atom_name += '_0'
                 else:
@@ -246,6 +246,6 @@ class Atoms():
         """
         atoms = []
         for x in self.all_atoms:
-            if x.resiclass == name and x.name not in atoms:
+            if x.resiclass.upper() == name.upper() and x.name not in atoms:
                 atoms.append(x.name)
         return atoms
